@@ -417,6 +417,22 @@ func TestValuesAtTheSizeLimit(t *testing.T) {
 			}
 			step("insert of the big value", "12ab34", big)
 			step("insert of a sibling that splits its leaf", "12ab56", []byte{1})
+			{
+				// a child state (a level above this store, its own cold cache) removes the sibling, which lifts the big leaf
+				// there; the state below is not the child's to change: it still reads the same and re-computes to its root
+				parentRoot := append([]byte(nil), mpt.GetRoot()...)
+				child := mptkit.NewTrie(util.NewLevelNodeDB(util.NewMemoryNodeDB(), st.DB, false), version+int64(ci%2), parentRoot)
+				if _, err := child.Delete(util.Path("12ab56")); err != nil {
+					t.Fatalf("%s store, value of %d bytes: removal of the sibling in a child state: %v", kind, len(big), err)
+				}
+				if got, err := child.GetNodeValueRaw(util.Path("12ab34")); err != nil || !bytes.Equal(got, big) {
+					t.Fatalf("%s store, value of %d bytes: the child state reads %d bytes (%v) after lifting the big leaf", kind, len(big), len(got), err)
+				}
+				w := refmpt.WalkFrom(parentRoot, mptkit.GetterOf(st.DB), false)
+				if len(w.Problems) > 0 || len(w.Missing) > 0 || !mptkit.EqualContent(w.Content, content) {
+					t.Fatalf("%s store, value of %d bytes: after a child state lifted the big leaf, the state below it has problems %v, %d missing nodes, %d of %d pairs", kind, len(big), w.Problems, len(w.Missing), len(w.Content), len(content))
+				}
+			}
 			step("insert of an interior value", "12ab", []byte{2})
 			step("removal of the interior value", "12ab", nil)
 			step("removal of the sibling", "12ab56", nil)
